@@ -72,6 +72,54 @@ func runRoute(c *Ctx) {
 			c.Note(fmt.Sprintf("shape %d", si), fmt.Sprintf("%s: %d spec assignments over kinds %v; every target x every alias combination x per-level argvs %v", shapeText(shape), ntrees, ks, routeUniverse))
 		}
 	}
+	versionedRoutes(c, &idx)
+}
+
+// versionedRoutes: the application declares Version("v version"); only a version flag given as the very first
+// argument is a version request, so sub-commands may declare their own -v / --version and are routed as usual.
+func versionedRoutes(c *Ctx, idx *int) {
+	universe := [][]string{{}, {"-v"}, {"--version"}, {"x"}, {"-v", "x"}, {"x", "-v"}, {"-f"}, {"-f", "x"}, {"--version=true"}}
+	nshapes := 0
+	for si, shape := range treeShapes(c.Thorough()) {
+		slots := numberSlots(shape)
+		if len(slots) < 2 || len(slots) > 4 {
+			continue
+		}
+		nshapes++
+		kindAssignments(len(slots), []int{3, 13}, func(assign []int) {
+			if assign[shape.slot] == 13 {
+				return // the root's own v/version names are taken by the version flag
+			}
+			*idx++
+			if !c.Mine(*idx) {
+				return
+			}
+			if !c.Begin("route-versioned", fmt.Sprint(si), fmt.Sprint(assign)) {
+				return
+			}
+			as := append([]int{}, assign...)
+			enumPaths(shape, func(target *tnode, names []string) {
+				path := pathNodes(target)
+				per := make([][][]string, len(path))
+				for i, n := range path {
+					per[i] = nil
+					for _, av := range levelArgvs(n, universe) {
+						if i == 0 && len(av) > 0 && (strings.HasPrefix(av[0], "-v") || strings.HasPrefix(av[0], "--version")) {
+							continue // a version request (C14), not routing
+						}
+						per[i] = append(per[i], av)
+					}
+				}
+				enumInvocations(path, names, per, func(args []string, own [][]string) {
+					c.Beat()
+					routeCaseV(c, si, shape, as, args, true)
+				})
+			})
+		})
+	}
+	if c.Shard == 0 {
+		c.Note("versioned application", fmt.Sprintf("%d shapes with 2-4 commands, the root declaring Version(\"v version\"): levels %q or (below the root) %q whose flag is spelled -v/--version; per-level argvs %v, root-level ones not starting with the version flag", nshapes, lvlKinds[3].spec, lvlKinds[13].spec, universe))
+	}
 }
 
 func shapeText(n *tnode) string {
@@ -93,11 +141,16 @@ func replayRoute(c *Ctx, cs Case) {
 	for _, x := range cs["kinds"].([]interface{}) {
 		assign = append(assign, int(x.(float64)))
 	}
-	routeCase(c, cInt(cs, "shape"), shape, assign, cStrs(cs, "args"))
+	ver, _ := cs["version_declared"].(bool)
+	routeCaseV(c, cInt(cs, "shape"), shape, assign, cStrs(cs, "args"), ver)
 }
 
 func routeCase(c *Ctx, si int, shape *tnode, assign []int, args []string) {
-	app, tr := buildTree(shape, treeOpts{kinds: assign, rootPol: 0})
+	routeCaseV(c, si, shape, assign, args, false)
+}
+
+func routeCaseV(c *Ctx, si int, shape *tnode, assign []int, args []string, version bool) {
+	app, tr := buildTree(shape, treeOpts{kinds: assign, rootPol: 0, version: version})
 	o := runIsolated(func() error { return app.Run(append([]string{"app"}, args...)) })
 	r := route(shape, assign, args)
 	c.Count("evaluations", 1)
@@ -109,7 +162,10 @@ func routeCase(c *Ctx, si int, shape *tnode, assign []int, args []string) {
 		c.Count("nontrivial", 1)
 	}
 	key := fmt.Sprintf("tree=%s specs=%s args=%q", shapeText(shape), specsText(shape, assign), args)
-	cs := func() Case { return Case{"shape": si, "kinds": assign, "args": args} }
+	if version {
+		key += " Version(\"v version\") declared on the root"
+	}
+	cs := func() Case { return Case{"shape": si, "kinds": assign, "args": args, "version_declared": version} }
 	obs := fmt.Sprintf("calls=%v returned=%v err=%v panicked=%v exits=%v", tr.calls, o.Returned, o.Err, o.Panicked, o.Exits)
 	if o.Panicked || len(o.Exits) > 0 {
 		c.Violation("C04", key, cs(), "Run returns under ContinueOnError", obs+" panic="+safeSprint(o.PanicVal))
@@ -156,7 +212,7 @@ func routeCase(c *Ctx, si int, shape *tnode, assign []int, args []string) {
 	}
 	// the tree may grow between two runs of the same instance: a command declared on the root after a first
 	// (root-level) run must be seen by the next run
-	if r.target == shape && shape.kid("late") == nil {
+	if r.target == shape && shape.kid("late") == nil && !version {
 		lateRan, lateX := 0, ""
 		app.Command("late lt", "declared after the first run", func(sub *cli.Cmd) {
 			x := sub.StringArg("X", "", "")
